@@ -543,7 +543,15 @@ def primEq : Val → Val → Except Err BTerm
   | .int a, .bool b => .ok (BTerm.mkIeq a (ITerm.mkOfBool b))
   | .bool a, .int b => .ok (BTerm.mkIeq (ITerm.mkOfBool a) b)
   | .bool a, .bool b => .ok (BTerm.mkIeq (ITerm.mkOfBool a) (ITerm.mkOfBool b))
-  | .list _, .list _ => .error (.unsupported "== on sequences")
+  | .list a, .list b =>
+    -- tuples / lists of literals (dictionary keys such as `(market_id1, market_id2)`): decided at once
+    let rec lits : List Val → Option (List Int)
+      | [] => some []
+      | .int (.lit i) :: r => (lits r).map (i :: ·)
+      | _ => Option.none
+    match lits a, lits b with
+    | some x, some y => .ok (.lit (x == y))
+    | _, _ => .error (.unsupported "== on sequences")
   | .dict _ _, .dict _ _ => .error (.unsupported "== on dicts")
   | .clo _, _ => .error (.unsupported "== on functions")
   | _, .clo _ => .error (.unsupported "== on functions")
